@@ -141,6 +141,8 @@ def check_linked_split(R, rng, label):
             if not out.usable:
                 R.count("split_module_not_compiled(C16 territory)")
                 return
+            if os.path.dirname(name):
+                os.makedirs(os.path.dirname(name), exist_ok=True)
             with open(name + ".nslir", "wb") as f:
                 pickle.dump(out.ir, f)
             mods[name] = out.ir
